@@ -100,7 +100,7 @@ def enabled(stack, op, maxdepth):
         return bool(stack) and stack[-1][1] == 'push'
     if k in ('exit', 'raise'):
         return bool(stack) and stack[-1][1] == 'ctx'
-    if k in ('text', 'comment'):
+    if k in ('text', 'comment', 'ws_on', 'ws_off'):
         return True
     return True
 
@@ -210,6 +210,10 @@ def impl_run(ops, whitespace=True):
                 raise _WriterAccepted('%s with a non-string attribute value did not raise' % k)
             if k == 'tag':
                 w.write_tag(op[1], list(op[2]), op[3])
+            elif k == 'ws_on':
+                w.enable_whitespace()
+            elif k == 'ws_off':
+                w.disable_whitespace()
             elif k == 'text':
                 w.write_line(op[1], do_escape=True)
             elif k == 'comment':
@@ -320,6 +324,10 @@ def compare(model, node, ws, path='root'):
                     pending = pending[j + len(want):]
                     ok = True
                     break
+                if ws == 'mixed' and pending[j:].startswith(t):     # written while whitespace was disabled: no newline
+                    pending = pending[j + len(t):]
+                    ok = True
+                    break
                 if not ws:
                     break
                 j += 1
@@ -371,6 +379,8 @@ def check_history(ops, ws=True):
     kids = [k for k in tree[2] if not (isinstance(k, tuple) and k[0] == 'chars')]
     if len(kids) != 1:
         return 'document has %d top-level nodes' % len(kids), text
+    if any(op[0] in ('ws_on', 'ws_off') for op in ops):
+        ws = 'mixed'    # the mode changes inside the history: accept the whitespace either mode may add
     r = compare(model, kids[0], ws)
     return (r, text) if r else (None, None)
 
@@ -451,6 +461,43 @@ def _work_hist(chunk):
         part.sample({'ops': [firsts[0], menu[5], menu[8]], 'mode': 'history'})
     return part.result()
 
+
+
+# ----------------------------------------------- whitespace mode toggles ---
+# enable_whitespace()/disable_whitespace() are public and may be called while elements are open.
+TOGGLE_MENU = [
+    ('push', 'a', [('a', 'v')]), ('enter', 'a', [('a', None)]), ('tag', 'a', [], ''), ('tag', 'b', [('a', LONG), ('b', LONG)], None),
+    ('text', ' x '), ('pop',), ('exit',), ('ws_on',), ('ws_off',),
+]
+
+
+def _work_toggle(chunk):
+    part = Part()
+    maxlen, maxdepth, firsts = chunk
+
+    def rec(ops, stack):
+        if any(o[0] in ('ws_on', 'ws_off') for o in ops):
+            for ws0 in (True, False):
+                err, text = check_history(ops, ws0)
+                part.add(evaluations=1, transitions=1, traces_validated_against_impl=1, states=1)
+                part.nontrivial(repr((ops, ws0)))
+                part.outcome(('toggle', err is None))
+                if err:
+                    part.violation('toggle:%r:start_ws=%s' % (ops, ws0), err,
+                                   {'ops': ops, 'whitespace': ws0, 'output': text, 'error': err})
+        if len(ops) >= maxlen:
+            return
+        for op in TOGGLE_MENU:
+            if enabled(stack, op, maxdepth):
+                nops = ops + [op]
+                _, st2 = model_run(nops)
+                rec(nops, st2)
+    for f in firsts:
+        if enabled([], f, maxdepth):
+            _, st = model_run([f])
+            rec([f], st)
+    part.sample({'mode': 'whitespace toggles', 'menu': [list(map(str, o)) for o in TOGGLE_MENU]})
+    return part.result()
 
 
 # ------------------------------------------------------- two writers alive ---
@@ -556,7 +603,7 @@ def run(ctx):
     ctx.set(rule='(a) every (tag-stack state, op) edge for stacks up to depth %d over names %r x kinds push/ctx with the '
                  'full string/attribute menu, whitespace on and off; (b) every op history up to length %d over a '
                  '%d-op menu without state de-duplication. Each edge/history is executed on a fresh XMLWriter, '
-                 'closed, parsed by expat and compared with the reference tree; (c) all interleavings of every ordered pair of six straight-line programs on two writers alive at once. non-trivial = case whose op '
+                 'closed, parsed by expat and compared with the reference tree; (c) every history (one longer than in (b)) over a 9-op menu that switches the whitespace mode while elements are open, started in either mode; (d) all interleavings of every ordered pair of six straight-line programs on two writers alive at once. non-trivial = case whose op '
                  'carries a string other than ""/a/v (a) or any history (b)' % (maxdepth, NAMES, maxlen, len(SMALL_MENU)),
             bounds={'stack_depth': maxdepth, 'history_len': maxlen, 'menu_full': len(op_menu(ctx.tier)),
                     'menu_small': len(SMALL_MENU)})
@@ -566,6 +613,8 @@ def run(ctx):
         ctx.merge(r)
     hchunks = [(maxlen, maxdepth, [f]) for f in rotate(SMALL_MENU, ctx.seed)]
     for r in pmap(_work_hist, hchunks):
+        ctx.merge(r)
+    for r in pmap(_work_toggle, [(maxlen + 1, maxdepth, [f]) for f in rotate(TOGGLE_MENU, ctx.seed)]):
         ctx.merge(r)
     pairs = [(i, j) for i in range(len(PROGRAMS)) for j in range(len(PROGRAMS))]
     for r in pmap(_work_two, chunked(rotate(pairs, ctx.seed), 12)):
